@@ -1370,7 +1370,8 @@ func (r *e2eReq) UnmarshalJSON(b []byte) error {
 }
 
 type e2eBatch struct {
-	Reqs []e2eReq `json:"reqs"`
+	Reqs   []e2eReq `json:"reqs"`
+	MaxRec int      `json:"max_rec,omitempty"` // the server's configured MaxRecordSize (0 = default, 1 MiB)
 }
 type e2eOut struct {
 	Readback []string `json:"readback"` // acknowledged writes to rb=… partitions that could not be read back completely
@@ -1636,6 +1637,49 @@ func sectionE2E(rng *vh.Rng) {
 		}
 		runE2EBatch(sec, b, false)
 	}
+	// record sizes around the configured limit (a small one, so that it is cheap): limit-2 … limit+6, without and with fields. A
+	// record of at most MaxRecordSize bytes must be acknowledged and readable, a bigger one must be refused — and whatever was
+	// acknowledged must be served by a later read of its partition (a chunk reader's buffer has MaxRecordSize bytes)
+	{
+		const limit = 4096
+		b := e2eBatch{MaxRec: limit}
+		uv := func(n int) int {
+			k := 1
+			for n > 127 {
+				n >>= 7
+				k++
+			}
+			return k
+		}
+		for wi, withF := range []bool{false, true} {
+			for d := -2; d <= 6; d++ {
+				tags := fmt.Sprintf("rb=rec%dd%d", wi, d+2)
+				wf, ef, fbin := "", "", 0
+				if withF {
+					wf, ef, fbin = "a=b", "k=v", 8 // two pairs of one-byte items: 4 bytes each
+				}
+				// record = version 1 + timestamp 8 + varint(len msg) + msg [+ varint(len fields) + fields]
+				over := 9
+				if fbin > 0 {
+					over += uv(fbin) + fbin
+				}
+				L := limit + d - over - 2
+				if uv(L) != 2 {
+					continue
+				}
+				exp := "ok"
+				if d > 0 {
+					exp = "operr"
+				}
+				b.Reqs = append(b.Reqs,
+					e2eReq{Kind: "write", Tags: tags, Flds: wf, Evs: []e2eE{{1, "small-before", ef}}, Expect: "ok"},
+					e2eReq{Kind: "write", Tags: tags, Flds: wf, Evs: []e2eE{{2, strings.Repeat("m", L), ef}}, Expect: exp},
+					e2eReq{Kind: "write", Tags: tags, Flds: wf, Evs: []e2eE{{3, "small-after", ef}}, Expect: "ok"},
+					e2eReq{Kind: "query", Query: "select from " + tags + " limit 10", Lim: 10, Expect: "ok"})
+			}
+		}
+		runE2EBatch(sec, b, false)
+	}
 	// the F55 class, one statement per child (a partition first, so that LIMIT is reached): at most three per run
 	for i, q := range f55Own {
 		if i >= 3 {
@@ -1684,7 +1728,7 @@ func childE2E(in, logf, outf, dir string) {
 		ioutil.WriteFile(outf, ob, 0644)
 	}
 	os.MkdirAll(dir, 0755)
-	srv, err := lrsrv.Start(dir, lrsrv.Opts{})
+	srv, err := lrsrv.Start(dir, lrsrv.Opts{MaxRecordSize: b.MaxRec})
 	if err != nil {
 		out.Note = "server did not start: " + err.Error()
 		finish()
